@@ -78,6 +78,42 @@ Theorem C06_faulty_sync_partial : forall fixed sp P F, NoDup (pod_ids P) ->
 Proof. exact faulty_sync_partial. Qed.
 Print Assumptions C06_faulty_sync_partial.
 
+(* createJobPod: the fields a created pod derives are those of ITS OWN (task, index), for every
+   job version / retry count / task / template; when syncJob builds all missing replicas of a
+   task in one pass, the k-th pod is the pod of the k-th index and distinct indices give distinct
+   index markers; the executable law accepts exactly that *)
+Theorem C06_create_job_pod_own_fields : forall ver retry t x i,
+  let p := create_job_pod ver retry t x i in
+  pf_task p = t_name t /\ pf_lbl_task p = t_name t /\ pf_idx p = i /\ pf_lbl_idx p = i /\
+  pf_version p = ver /\ pf_retry p = retry.
+Proof. exact create_job_pod_own_fields. Qed.
+Print Assumptions C06_create_job_pod_own_fields.
+
+Theorem C06_create_task_pods_pointwise : forall ver retry t x idxs k i,
+  nth_error idxs k = Some i ->
+  nth_error (create_task_pods ver retry t x idxs) k = Some (create_job_pod ver retry t x i).
+Proof. exact create_task_pods_pointwise. Qed.
+Print Assumptions C06_create_task_pods_pointwise.
+
+Theorem C06_create_task_pods_distinct : forall ver retry t x idxs,
+  NoDup idxs -> NoDup (map pf_idx (create_task_pods ver retry t x idxs)) /\
+                map pf_lbl_idx (create_task_pods ver retry t x idxs) = idxs.
+Proof. exact create_task_pods_distinct. Qed.
+Print Assumptions C06_create_task_pods_distinct.
+
+Theorem C06_law_created_pods_accepts_model : forall ver retry t x idxs,
+  law_created_pods ver retry t x idxs (create_task_pods ver retry t x idxs) = true.
+Proof. exact law_created_pods_accepts_model. Qed.
+Print Assumptions C06_law_created_pods_accepts_model.
+
+(* a delayed action that expires and leads to syncJob creates no pod while the PodGroup is not admitted *)
+Theorem C06_fire_creates_none_while_pg_pending : forall w w' e wr t c rest,
+  fire w = (w', e, wr) -> d_queue (c_delay (v_ctl w)) = (t, c) :: rest ->
+  fst (exec (st_phase (v_st w)) (dt_action t)) = KSync ->
+  pg_admitted (v_pg w) = false -> w_pods w' = w_pods w.
+Proof. exact fire_creates_none_while_pg_pending. Qed.
+Print Assumptions C06_fire_creates_none_while_pg_pending.
+
 (* controller restart: whatever order the informers deliver pods, job and PodGroup in
    (pods before the job included: the job cache keeps them in a placeholder and
    cache.Add attaches the job to it), the controller ends up seeing exactly what the
